@@ -38,14 +38,10 @@ Ltac neq_false :=
   repeat match goal with H : ?t <> ?k |- _ => rewrite (proj2 (Z.eqb_neq t k) H) in *; clear H end.
 
 (* ---- signature ---- *)
+(* since the model's sig_length IS the regenerated function, this tie is definitional; what the
+   model needs of it is proved, independently of its shape, in Proofs/SigLen.v *)
 Theorem tie_signature_length t : g_signature_getSignatureLength t = sig_length t.
-Proof.
-  split_on t [0; 1; 2; 3; 4; 5; 6; 7; 8; 9; 10; 11].
-  unfold g_signature_getSignatureLength, sig_length, sw_lookup, sw_signature_getSignatureLength, sw_signature_getSignatureLength_default, g_memZ, memZ.
-  cbn [existsb]. neq_false. cbn [orb].
-  destruct ((t <? 0) || (t >? 65535)); [reflexivity|].
-  destruct ((t >=? 12) && (t <=? 20)); [reflexivity|]. destruct ((t >=? 65280) && (t <=? 65534)); reflexivity.
-Qed.
+Proof. reflexivity. Qed.
 Theorem tie_signature_validate s : g_signature_Signature_Validate (view_sig s) = sig_validate s.
 Proof.
   unfold g_signature_Signature_Validate, sig_validate, view_sig. cbn [g_signature_Signature__sigType g_signature_Signature__data].
